@@ -4,7 +4,10 @@
    cnvlib/descriptives.py:weighted_median (with its on_weighted_array wrapper)
    and of np.median, as the code is NOW (/repo 6a8e569: levels aligned by
    position, a level change wherever consecutive levels differ, missing is a
-   level of its own; d9d607e: relative tie tolerance of the weighted median).
+   level of its own; d9d607e / 4f02c07: relative tie tolerance of the weighted
+   median, applied in the search along the cumulative weights as well).  The
+   last part models do_call as a whole: the filter blocks around the calling
+   step of the C01 / C02 models (Model/Call.v, Model/Threshold.v, Model/Baf.v).
 
    A segment table is a list of rows; a missing cell (NaN) is None.  A column
    that is absent from the table is represented by None in every row (the
@@ -13,6 +16,8 @@
    harness with non-default indexes).  No proofs in this file. *)
 From Coq Require Import QArith.Qabs.
 From CNV Require Import Base.Prelude Base.Str Gen.SegfilterDefaults.
+From CNV Require Base.QNum Gen.DescDefaults Model.Descriptives.     (* qualified use only *)
+From CNV Require Model.Call Model.Threshold Model.Baf.               (* C01 / C02 models of the calling step *)
 
 Record seg := mkSeg {
   chrom : string; lo : Z; hi : Z; gene : string;
@@ -68,61 +73,36 @@ Definition wmean_opt (ws : list Q) (xs : list (option Q)) : option Q :=
     | l => Some (Qred (sumQ l / Qlen l))
     end.
 
-(* stable insertion sort of (value, weight) pairs by value *)
-Fixpoint ins_pair (x : Q * Q) (l : list (Q * Q)) : list (Q * Q) :=
-  match l with
-  | [] => [x]
-  | y :: t => if Qltb (fst y) (fst x) then y :: ins_pair x t else x :: l
-  end.
-Definition sort_pairs (l : list (Q * Q)) : list (Q * Q) := fold_right ins_pair [] l.
-
-Fixpoint ins_q (x : Q) (l : list Q) : list Q :=
-  match l with
-  | [] => [x]
-  | y :: t => if Qltb y x then y :: ins_q x t else x :: l
-  end.
-Definition sort_q (l : list Q) : list Q := fold_right ins_q [] l.
-
-Fixpoint cumsum_from (acc : Q) (l : list Q) : list Q :=
-  match l with
-  | [] => []
-  | x :: t => let a := Qred (acc + x) in a :: cumsum_from a t
-  end.
-
-(* cumulative_weight.searchsorted(midpoint): first i with midpoint <= cum[i] *)
-Fixpoint first_ge (mid : Q) (cum : list Q) : nat :=
-  match cum with
-  | [] => O
-  | c :: t => if Qle_bool mid c then O else S (first_ge mid t)
-  end.
-
-(* weights.argmax(): first index of the maximum *)
-Fixpoint argmax_aux (l : list Q) (i bi : nat) (b : Q) : nat :=
-  match l with
-  | [] => bi
-  | x :: t => if Qltb b x then argmax_aux t (S i) i x else argmax_aux t (S i) bi b
-  end.
-Definition argmax (l : list Q) : nat :=
-  match l with [] => O | x :: t => argmax_aux t 1%nat O x end.
-
-Definition float_eps : Q := 1 # 4503599627370496.       (* sys.float_info.epsilon = 2^-52 *)
-
 Definition mean2 (a b : Q) : Q := Qred ((a + b) / 2).
 
-(* body of descriptives.weighted_median on the sorted pairs (at least 2 of them) *)
+(* descriptives.weighted_median on the arranged pairs, as the code is now
+   (4f02c07: searchsorted(midpoint - tolerance), relative tolerance).  The pieces
+   are those of C19's model (Model/Descriptives.v: psort, argmax_from, wmed_tol,
+   and the generated WMEDIAN_HALF / WMEDIAN_TOL_EPS); the walk along the
+   cumulative weights is Descriptives.wmed_walk made total: where the code would
+   run off the end of the array (only possible with a negative total weight) it
+   returns the last value instead of C19's 0.  Proofs/SegfiltersLib.v proves the
+   two equal whenever the total weight is non-negative. *)
+Fixpoint wmed_walk_d (mid tol acc : Q) (ps : list (Q * Q)) (d : Q) : Q :=
+  match ps with
+  | [] => d
+  | (v, w) :: rest =>
+      let c := QNum.qadd acc w in
+      if QNum.qle_b (QNum.qsub mid tol) c then
+        match rest with
+        | (v2, _) :: _ =>
+            if QNum.qle_b (QNum.qabs (QNum.qsub c mid)) tol then QNum.qdiv (QNum.qadd v v2) 2 else v
+        | [] => v
+        end
+      else wmed_walk_d mid tol c rest v
+  end.
+
 Definition wmedian_sorted (ps : list (Q * Q)) : Q :=
-  let a := map fst ps in
-  let w := map snd ps in
-  let d := hd 0%Q a in
-  let mid := Qred (wmedian_mid_factor * sumQ w) in
-  if existsb (fun wi => Qltb mid wi) w then nth (argmax w) a d
-  else
-    let cum := cumsum_from 0 w in
-    let idx := first_ge mid cum in
-    let tol := (Qlen a * float_eps * last cum 0)%Q in
-    if (S idx <? length a)%nat && Qle_bool (Qabs (nth idx cum 0%Q - mid)) tol
-    then mean2 (nth idx a d) (nth (S idx) a d)
-    else nth idx a d.
+  let total := QNum.qsum (map snd ps) in
+  let mid := QNum.qmul DescDefaults.WMEDIAN_HALF total in
+  if existsb (fun p => QNum.qlt_b mid (snd p)) ps then
+    match ps with [] => 0%Q | p :: t => fst (Descriptives.argmax_from p t) end
+  else wmed_walk_d mid (Descriptives.wmed_tol ps) 0 ps (hd 0%Q (map fst ps)).
 
 (* on_weighted_array: cells missing in `a` are dropped from both arrays; nothing
    left -> NaN; a single value -> that value *)
@@ -137,7 +117,7 @@ Definition wmedian_pairs (ps : list (Q * Q)) : option Q :=
   match ps with
   | [] => None
   | [(a, _)] => Some a
-  | _ => Some (wmedian_sorted (sort_pairs ps))
+  | _ => Some (wmedian_sorted (Descriptives.psort ps))
   end.
 
 Definition wmedian_opt (vals : list (option Q)) (ws : list Q) : option Q :=
@@ -146,13 +126,8 @@ Definition wmedian_opt (vals : list (option Q)) (ws : list Q) : option Q :=
 Definition wmedian (vals ws : list Q) : Q :=
   match wmedian_pairs (combine vals ws) with Some m => m | None => 0%Q end.
 
-(* np.median of a non-empty list *)
-Definition median (l : list Q) : Q :=
-  let s := sort_q l in
-  let n := length s in
-  let d := hd 0%Q s in
-  if Nat.even n then mean2 (nth (n / 2 - 1)%nat s d) (nth (n / 2)%nat s d)
-  else nth (n / 2)%nat s d.
+(* np.median of a non-empty list: the shared definition of Base/QNum.v *)
+Definition median (l : list Q) : Q := QNum.median l.
 
 Definition median_opt (l : list (option Q)) : option Q :=
   match all_some l with
@@ -344,3 +319,108 @@ Definition apply_seq (fs : list filt) (t : list seg) : list seg :=
 Definition call_with_filters (call : list seg -> list seg) (fs : list filt) (t : list seg) : list seg :=
   let '(t1, rest) := pre_steps pre_filters t fs in
   apply_seq rest (call t1).
+
+(* ------------------------------------------- do_call with the real calling step *)
+
+(* what do_call does between the two filter blocks, without a VCF: purity
+   rescaling of log2 (Model/Call.v), the calling method (Model/Call.v clonal,
+   Model/Threshold.v threshold, none), cn = round(absolutes), and the allelic
+   split from the table's baf column (Model/Baf.v).  exp2 / lg2 are oracles
+   (2**x and np.log2 as the code's libm computes them). *)
+
+Inductive meth := Mthreshold | Mclonal | Mnone.
+
+Record callcfg := mkCfg {
+  c_method : meth; c_ploidy : Z; c_purity : option Q;
+  c_hapx : bool;                       (* is_haploid_x_reference *)
+  c_female : bool;                     (* is_sample_female *)
+  c_build : option string;             (* diploid_parx_genome *)
+  c_thresholds : list Q;
+  c_has_baf : bool }.                  (* "baf" in outarr: the table has a baf column *)
+
+Definition set_log2 (s : seg) (v : Q) : seg :=
+  mkSeg (chrom s) (lo s) (hi s) (gene s) v (probes s) (weight s) (depth s) (baf s)
+        (cn s) (cn1 s) (cn2 s) (pbt s) (ci_lo s) (ci_hi s) (sem s).
+
+Definition set_cn (s : seg) (c : Q) (a : option (option Q * option Q)) : seg :=
+  mkSeg (chrom s) (lo s) (hi s) (gene s) (log2 s) (probes s) (weight s) (depth s) (baf s)
+        c (match a with Some (x, _) => x | None => cn1 s end)
+          (match a with Some (_, y) => y | None => cn2 s end)
+        (pbt s) (ci_lo s) (ci_hi s) (sem s).
+
+Definition optZ_Q (o : option Z) : option Q :=
+  match o with Some z => Some (inject_Z z) | None => None end.
+
+Section CallStep.
+Variable exp2 lg2 : Q -> Q.
+Variable cfg : callcfg.
+
+Definition in_row_of (s : seg) : Call.in_row := (chrom s, lo s, hi s, exp2 (log2 s)).
+
+(* C01's row: (rounded cn, absolute before rounding, rewritten ratio 2^log2 if rewritten) *)
+Definition clonal_row (first : string) (s : seg) : Call.out_row :=
+  Call.call_row (c_ploidy cfg) (c_purity cfg) (c_hapx cfg) (c_female cfg) (c_build cfg) first (in_row_of s).
+
+(* the ratio whose log2 replaces the row's log2 (`if purity and purity < 1.0`) *)
+Definition purity_ratio (first : string) (s : seg) : option Q :=
+  match Call.use_purity (c_purity cfg) with
+  | Some _ => snd (clonal_row first s)
+  | None => None
+  end.
+
+Definition rescale_row (first : string) (s : seg) : seg :=
+  match purity_ratio first s with
+  | Some ratio => set_log2 s (lg2 ratio)
+  | None => s
+  end.
+
+(* C02's row on the (possibly rewritten) log2 *)
+Definition thr_row_of (s' : seg) : Threshold.thr_row := (chrom s', Some (log2 s'), exp2 (log2 s')).
+
+(* `absolutes`: s is the row before, s' after the purity rescaling *)
+Definition absolute_of (first : string) (s s' : seg) : option Q :=
+  match c_method cfg with
+  | Mthreshold =>
+      Some (inject_Z (Threshold.thr_row_cn (c_ploidy cfg) (c_hapx cfg) (c_thresholds cfg) (thr_row_of s')))
+  | Mclonal => Some (snd (fst (clonal_row first s)))
+  | Mnone => None
+  end.
+
+Definition call_row (first : string) (s : seg) : seg :=
+  let s' := rescale_row first s in
+  match absolute_of first s s' with
+  | None => s'
+  | Some a =>
+      let c := Call.round_he a in
+      set_cn s' (inject_Z c)
+        (if c_has_baf cfg
+         then let '(x, y) := Baf.alleles a (baf s') c in Some (optZ_Q x, optZ_Q y)
+         else None)
+  end.
+
+Definition build_ok : bool :=
+  match Call.use_purity (c_purity cfg), c_build cfg with
+  | Some _, Some b => Call.build_supported b
+  | _, _ => true
+  end.
+
+Definition first_of (t : list seg) : string :=
+  match t with s :: _ => chrom s | [] => EmptyString end.
+
+(* None = AssertionError (unsupported genome build on the purity path) *)
+Definition call_step (t : list seg) : option (list seg) :=
+  if build_ok then Some (map (call_row (first_of t)) t) else None.
+
+(* per row: the absolute before rounding and the log2 the thresholds see (for
+   the harness: float decisions near a boundary) *)
+Definition call_diag (t : list seg) : list (option Q * Q) :=
+  map (fun s => let s' := rescale_row (first_of t) s in (absolute_of (first_of t) s s', log2 s')) t.
+
+Definition do_call_model (fs : list filt) (t : list seg) : option (list seg) :=
+  let '(t1, rest) := pre_steps pre_filters t fs in
+  match call_step t1 with
+  | Some t2 => Some (apply_seq rest t2)
+  | None => None
+  end.
+
+End CallStep.
